@@ -22,7 +22,7 @@ MANIFEST = dict(
          "table, composed per combination) and the listed ones provably fail. Tie: constants and the guard operator are "
          "regenerated from the source; the member model is checked by a reflective correspondence (dir() of every reachable "
          "object of the REAL facades, a member the model does not know is a failure) exhaustive over all 895 combinations."
-         ' Since session 3: update histories (unit flip, temperature change, flip back) reach the block through replace_status_block_segment - the notification chain runs - and every member must read as the model says for the final block. Round 14: every member on the second and third connection of one process (harness/sessions.py). Round 15: the client\'s handler reads every facade member inside the teardown / disconnected / ready / finished events.',
+         ' Since session 3: update histories (unit flip, temperature change, flip back) reach the block through replace_status_block_segment - the notification chain runs - and every member must read as the model says for the final block. Round 14: every member on the second and third connection of one process (harness/sessions.py). Round 15: the client\'s handler reads every facade member inside the teardown / disconnected / ready / finished events. Round 17: the watercare device is rendered from inside its own change notification for every mode byte.',
     note="Trusted: Lean kernel; harness/packs.py table extraction; the stub spa (struct + accessors, as tests/test_snapshots.py); "
          "the canonicaliser. Members that start I/O (async_*, set_*, turn_on/off, update) are C13's. Float digits are C14's: the "
          "model predicts only that a temperature member is a float / its rendering a str. has_observers, object reprs, "
@@ -669,9 +669,23 @@ def watercare_sweep(ctx, cs, flavors):
         if f is None:
             continue
         wc = f.water_care
-        for old in (None, 0):
+        inside = []
+
+        def reads_inside_the_callback(sender, o_, n_):
+            """a client that renders the device from inside its change notification"""
+            for nm, fn in (("str", lambda: str(wc)), ("monitor", lambda: wc.monitor), ("repr", lambda: repr(wc)), ("mode", lambda: wc.mode)):
+                try:
+                    fn()
+                except Exception as e:  # noqa
+                    inside.append((nm, e))
+        try:
+            wc.watch(reads_inside_the_callback)
+        except Exception:  # noqa
+            pass
+        for old in (None, 0, 3):
             for new in [None] + list(range(256)):
                 wc.active_mode = old
+                del inside[:]
                 try:
                     if flavor == "a":
                         wc.change_watercare_mode(new)
@@ -683,6 +697,10 @@ def watercare_sweep(ctx, cs, flavors):
                     if new is not None:
                         ctx.violation(f"member:watercare.change:{err_name(e)}", {"flavor": flavor, "old_mode": old, "mode": new, "member": "watercare.change"},
                                       "reporting a watercare mode does not raise", f"{err_name(e)}: {e}")
+                for nm, e in inside[:1]:
+                    ctx.violation(f"member:GeckoWaterCare.{'__str__' if nm == 'str' else nm}:inside-change-callback:{err_name(e)}",
+                                  {"flavor": flavor, "old_mode": old, "mode": new, "member": "watercare." + nm, "read": "inside the change callback"},
+                                  "evaluates without raising, also when read from the device's own change notification", f"{err_name(e)}: {e}")
                 wc.active_mode = new
                 res = {}
                 for nm, fn in (("str", lambda: str(wc)), ("monitor", lambda: wc.monitor), ("repr", lambda: repr(wc)), ("mode", lambda: wc.mode)):
